@@ -14,7 +14,7 @@ LEVEL = "model_checking"
 RULE = ("all ordered lists of <=2 (thorough: <=3) distinct strings over a 17-string alphabet and of integers over {-2,-1,0,1,2,10}, x null "
         "member x default (none / first / non-member) x inline vs referenced x Enum classes vs literal_enums; consts over 10 values x "
         "required x typed/untyped; a const as a member of a oneOf/anyOf with each of 8 partner kinds, both orders; inputs: every listed value, null, and a probe set of values not listed (case variants, trimmed, "
-        "suffixed, other type); non-trivial = the holder model was generated and every listed value exercised; enums / consts used by an operation: as JSON response (alone / next to 204, empty 404, default) and as query / header parameter, both enum styles, inline and by reference: every listed value is accepted / transmitted as written, unlisted replies are refused")
+        "suffixed, other type); non-trivial = the holder model was generated and every listed value exercised; enums / consts used by an operation: as JSON response and (string enums / consts) as text/plain and text/html response (alone / next to 204, empty 404, default) and as query / header parameter, both enum styles, inline and by reference: every listed value is accepted / transmitted as written, unlisted replies are refused")
 FLOOR = 0.4
 ASSUMPTIONS = ["the pinned uncaught ValueError('Duplicate key ...') counts as 'reported' for C14 (it is C06's business as a crash)"]
 
@@ -124,6 +124,10 @@ def cases(tier):
                 for sibling in ("none", "204", "404-empty", "default"):
                     yield {"labels": [f"values={values!r}", f"type={typ}", f"style={style}", "as-response", f"sibling={sibling}"] + (["ref"] if ref else []),
                            "payload": {"mode": "enum-response", "type": typ, "values": values, "style": style, "ref": ref, "sibling": sibling}}
+                    if all(isinstance(v, str) for v in values):       # string enums / consts also as text/* replies
+                        for media in ("text/plain", "text/html"):
+                            yield {"labels": [f"values={values!r}", f"type={typ}", f"style={style}", "as-response", f"media={media}", f"sibling={sibling}"] + (["ref"] if ref else []),
+                                   "payload": {"mode": "enum-response", "type": typ, "values": values, "style": style, "ref": ref, "sibling": sibling, "media": media}}
                 if typ != "const":
                     for loc in ("query", "header"):
                         for req in (True, False):
@@ -372,7 +376,8 @@ def _run_enum_response(p):
     from specmc import wire
     comps = {}
     sch = _op_enum_schema(p, comps)
-    responses = {"200": {"description": "d", "content": {"application/json": {"schema": sch}}}}
+    media = p.get("media", "application/json")
+    responses = {"200": {"description": "d", "content": {media: {"schema": sch}}}}
     if p["sibling"] == "204":
         responses["204"] = {"description": "nothing"}
     elif p["sibling"] == "404-empty":
@@ -385,7 +390,7 @@ def _run_enum_response(p):
         return {"skipped_crash": True, "outcome": f"crash:{res.crash['type']}@{res.crash['where']}", "nontrivial": False}
     if res.rejected or not res.endpoints:
         return {"outcome": "no-endpoint", "nontrivial": False}
-    key = f"response/{p['type']}/{p['style']}" + ("/ref" if p["ref"] else "")
+    key = f"response/{p['type']}/{p['style']}" + ("/ref" if p["ref"] else "") + ("/text" if media != "application/json" else "")
     viol = []
     values = p["values"]
     with Sandbox(res.pkg_tree()) as sb:
@@ -394,7 +399,8 @@ def _run_enum_response(p):
         except Exception as exc:  # noqa: BLE001
             return {"outcome": f"import-fails:{type(exc).__name__}", "nontrivial": False}
         current = {}
-        cap = wire.Capture(lambda request: httpx.Response(200, json=current["v"]))
+        cap = wire.Capture(lambda request: httpx.Response(200, json=current["v"]) if media == "application/json" else
+                           httpx.Response(200, content=str(current["v"]).encode(), headers={"content-type": media}))
         for v in values:
             current["v"] = v
             for variant in ("sync_detailed", "asyncio_detailed"):
@@ -409,6 +415,8 @@ def _run_enum_response(p):
                 elif p["style"] == "enum" and p["type"] != "const" and not isinstance(parsed, enum.Enum):
                     viol.append({"oracle": "listed-not-member", "site": "response", "key": f"{key}/{vclass(v)}", "detail": f"{variant}: listed value {v!r} parsed to {parsed!r}, not a member"})
         probes_ = ["zz-not-listed", 77, None] if p["type"] != "integer" else [77, "a", None]
+        if media != "application/json":
+            probes_ = ["zz-not-listed", "A", ""]
         for x in probes_:
             if any(type(x) is type(v) and x == v for v in values):
                 continue
